@@ -52,10 +52,12 @@ theorem inputOp_start (cfg : Cfg) (s : AState) (fuel : Nat) : (inputOp cfg s fue
     simp only [inputOp]
     split
     · split <;> simp
-    · have h1 := doWrap_start s.ensureBuf
+    · have h0 : s.ensureBuf.eofRestart.start = s.start := by
+        simp only [AState.eofRestart]; split <;> simp
+      have h1 := doWrap_start s.ensureBuf.eofRestart
       split
-      · rw [ih]; simpa using h1
-      · simpa using h1
+      · rw [ih]; simpa [h0] using h1
+      · simpa [h0] using h1
 
 /-- the other API calls (top, start, setbol, atbol, lineno queries) leave it alone too -/
 theorem commonOp_start_frame (cfg : Cfg) (s s' : AState) (op : Op)
